@@ -277,9 +277,10 @@ func (t *TableProfile) ReadFrom(r io.Reader) (total int64, err error) {
 		{"columns", func(p *encoding.Parser) (n int64, err error) {
 			var j uint16
 			nFields := uint16(len(fields))
-			t.Columns = make([]*ColumnProfile, count)
+			t.Columns = make([]*ColumnProfile, 0, preallocCap(count))
 			for i := uint32(0); i < count; i++ {
-				t.Columns[i] = &ColumnProfile{}
+				col := &ColumnProfile{}
+				t.Columns = append(t.Columns, col)
 				for {
 					l, err := objline.ReadUint16(p, &j)
 					if err != nil {
@@ -296,7 +297,7 @@ func (t *TableProfile) ReadFrom(r io.Reader) (total int64, err error) {
 					if sf, ok := profileFieldMap[field]; !ok {
 						return 0, p.ParseError("summary field %q not found", field)
 					} else {
-						l, err = sf.Read(p, t.Columns[i])
+						l, err = sf.Read(p, col)
 						if err != nil {
 							return 0, err
 						}
